@@ -122,6 +122,19 @@ CHECKS = {
         "policy kconfig and a lower bound (roots) for policy sdkconfig. Policy 'interactive' is outside the quantifier. Bounds: <=13 options.",
         "DESIGN.md 3/C08",
     ),
+    "C13": (
+        "fault_enumeration",
+        "property-based generation of (tree, configuration pair, destination kind) with exhaustive crash-point injection inside each generated save (Hypothesis + vk/faultfs.py)",
+        "Part (a): every writer and the kconfgen command line are run twice on pre-aged destinations; unchanged regeneration must leave "
+        "bytes, mtime_ns and inode alone, changed regeneration must hold the new content. Part (b): the mutating file-system operations of "
+        "one save (write_config with backup as menuconfig calls it; the config server's save) are counted, then the save is re-run from a "
+        "pristine copy once per operation - and per write prefix: 0, every line boundary, two mid-line offsets, all - with the process "
+        "'dying' there; the either-new-or-previous-or-.old-previous predicate is evaluated on what is left on disk. Crash points are "
+        "enumerated exhaustively per case, cases are sampled.",
+        "Trusted: vk/faultfs.py intercepts every mutating call the modules make (open for writing, os.replace/rename/mkdir/makedirs/"
+        "open/remove, shutil.copyfile) and drops all mutations after the crash; page-cache reordering / fsync is out of scope.",
+        "DESIGN.md 3/C13",
+    ),
 }
 
 NOT_YET = {}
